@@ -72,14 +72,9 @@ CLAIMED = {
         design='6/C16'),
 
     'C03': dict(
-        text=("Lean theorems (HcipyVerif.Fraunhofer): the lens propagator's result equals 1/(i*lambda*f) times the weighted Fourier sum on "
-              "the focal grid scaled by 2*pi/(lambda*f) (any dimension, tensor component, wavelength-dependent focal length), power "
-              "conservation (also Stokes power of Jones-matrix wavefronts) and backward∘forward = id on the full conjugate grid with the weight "
-              "change proved, wavelength/Stokes carried. The Fourier transform enters through named hypotheses (EvaluatesFourierSum, ParsevalOn, "
-              "InverseOn, EvaluatesAdjointSum) which are DISCHARGED in Lean for the FFT pipeline model of C01/C02 (Lemmas/FourierLink.lean), giving hypothesis-free corollaries (*_fft, *_auto); also setter/session histories on one propagator. Tie: model reproduces both focal-grid constructors and impulse responses in exact "
-              "turns; oracle compares the real FraunhoferPropagator with the direct weighted sum at every focal point."),
-        note=TRUST + " For the matrix/naive/zoom transforms the Fourier facts remain hypotheses (C01 proves them for those models separately); rounding is bounded only by the 1e-9 tolerance.",
-        technique="Lean 4 proof (algebra over ℂ, abstract Fourier hypotheses) + correspondence and direct-sum oracle on the real propagator",
+        text=("Lean theorems (HcipyVerif.Fraunhofer) about the very functions the native driver executes — lensForward/lensBackward (selection by C01's `choose detectFix` → FFT pipeline fastForward2 on the reconstructed axis configuration, or MFT mftForward on X/(λf) → norm factor 1/(iλf)). For every method the modelled make_fourier_transform can return from sound inputs, every wavelength and focal length, and both shift settings, the result equals 1/(iλf)·Σ E w exp(−2πi x·u/(λf)). Backward equals the adjoint integral. On a full conjugate grid power is conserved (also Stokes power of Jones-matrix wavefronts) and backward∘forward = id. The `_of_model` forms take their hypotheses from the executable ℚ classification (classify, lensMethod, proved total), which is compared with the running code on every run. make_focal_grid_from_pupil_grid with q ≥ 1 is proved a full conjugate with q_eff samples per λf/D, and both constructors contain the origin. Unbounded focal_length setter histories are covered, and the executable impulse response is proved equal to the pipeline on unit impulses. The abstract d-dimensional, tensor-component theorems and the propagator-object theorems (_fft/_mft/_sel) are kept and connected to the pipeline by bridge lemmas. Tie: model reproduces both focal-grid constructors, the method selection and impulse responses in exact turns; oracle compares the real FraunhoferPropagator with the direct weighted sum at every focal point."),
+        note=TRUST + " No Fourier hypothesis remains for regular or separated Cartesian focal grids (FFT and MFT). For unstructured and polar focal grids the code is the defining matrix and only the direct-sum oracle applies. The planner's float comparison is an oracle input (any value). Power is proved in 2-D only. The harness checks that wavelength and Stokes vector are carried; the theorem for that clause is definitional and named accordingly (meta_carried_by_construction). Rounding is bounded only by the 1e-9 tolerance.",
+        technique='Lean 4 proof about scalar-polymorphic executable models (run in exact Rat arithmetic by the driver, proved over ℝ/ℂ) + impulse-level correspondence of the selected pipeline with the real FraunhoferPropagator.forward/backward + direct-sum and adjoint-sum oracle',
         design='6/C03'),
     'C04': dict(
         text=("Lean theorems (HcipyVerif.NearField) for the FourierFilter operator P†F⁻¹DFP over any FourierPair: linearity, backward = exact adjoint, "
